@@ -453,8 +453,9 @@ def contracts():
                 continue
             cs.append(ReplaceInit(spelling, valkind))
     cs += [JoinArguments(), ArgumentsFor()]
-    from contracts import c13_ext
+    from contracts import c13_ext, c13_runtime
     cs += c13_ext.contracts()
+    cs += c13_runtime.contracts()
     return cs
 
 
